@@ -134,6 +134,9 @@ const (
 	MFmt
 	MUMulti
 	MUMultiReg
+	// C17 only (never drawn by the generator: weight -1)
+	LMig
+	WMig
 	NumKinds
 )
 
@@ -433,6 +436,10 @@ func init() {
 		}})
 	def(MUMulti, KindInfo{Slots: "U", Name: "uMulti", Arity: Multi, Groups: GUser | GMulti, Weight: 2,
 		build: func(n *Node, k, _ []error) error { return &UMulti{Msg: n.S[0].V, Errs: k} }})
+	def(LMig, KindInfo{Slots: "U", Name: "migLeaf", Groups: GUser, NInts: []int{2}, Weight: -1,
+		build: func(n *Node, _, _ []error) error { return MigNew(MigBuildName, n.N[0], n.S[0].V, nil) }})
+	def(WMig, KindInfo{Slots: "U", Name: "migWrap", Arity: Wrap, Groups: GUser, Weight: -1,
+		build: func(n *Node, k, _ []error) error { return MigNew(MigBuildName, FormWrap, n.S[0].V, k[0]) }})
 	def(MUMultiReg, KindInfo{Slots: "U", Name: "uMultiReg", Arity: Multi, Groups: GUser | GMulti, Weight: 2,
 		build: func(n *Node, k, _ []error) error { return &UMultiReg{Msg: n.S[0].V, Errs: k} }})
 }
